@@ -169,11 +169,39 @@ def rule_sort_whole_lines(ctx):
                 else:
                     r.check(f.qn == "delete_chunks_on_line_having_chunk", "%s/Delete" % f.qn, db.loc(f, n), "sorting.cpp deletes chunks in %s" % f.qn)
     r.require(n_mv >= 1, "no SwapLines call in sorting.cpp")
-    # the line deleter is only used for duplicates
+    # the line deleter is only used for duplicates: the call is controlled by a comparison that walks both directives to
+    # the end of the line (a function with a loop that advances both of its chunk parameters with GetNext), not by a
+    # comparison of one token
+    from ..flow import ReachingDefs
     for g, n in db.callers_of("delete_chunks_on_line_having_chunk"):
-        cs = " ".join("%s=%s" % c for c in _conds(g, n))
-        r.check("mod_sort_incl_import_prioritize" in cs or "dedup" in cs or "strcmp" in cs or "compare_chunks" in cs or "== 0" in cs, "delete_chunks_on_line_having_chunk<-%s" % g.qn, db.loc(g, n),
-                "whole-line deletion called under %s" % cs[:200])
+        r.seen()
+        rd = ReachingDefs(g, db)
+        cmp_funcs = set()
+        for cn, pol in g.guard_conds(g.nblock[n["i"]]):
+            if cn is None or pol is not True:
+                continue
+            for x in walk(g, cn):
+                if x["k"] == "call" and x.get("cm"):
+                    for key in (x["cm"], "%s@%s" % (x["cm"], g.file)):        # internal linkage: keyed per file
+                        if key in db.funcs:
+                            cmp_funcs.add(key)
+        whole = []
+        for k in cmp_funcs:
+            h = db.funcs[k]
+            ps = [p["n"] for p in h.d.get("params", ()) if p["t"].replace("const ", "").strip() in ("Chunk *", "class Chunk *")]
+            if len(ps) < 2:
+                continue
+            for hd, body, backs in h.loops():
+                adv = set()
+                for b in body:
+                    for m in h.blocks[b]["n"]:
+                        if m["k"] == "asg" and expr_str(h, m["a"][0]) in ps and re.match(r"^%s->GetNext\w*\(" % re.escape(expr_str(h, m["a"][0])), expr_str(h, m["a"][1])):
+                            adv.add(expr_str(h, m["a"][0]))
+                if len(adv) >= 2:
+                    whole.append(h.qn)
+        r.check(bool(whole), "delete_chunks_on_line_having_chunk<-%s" % g.qn, db.loc(g, n),
+                "a whole line is deleted as a duplicate under a test that does not compare the two lines token by token to their ends "
+                "(comparison functions in the guard: %s): lines that only share their first token are lost" % sorted(db.funcs[k].qn for k in cmp_funcs))
     r.floor(6)
 
 
